@@ -297,7 +297,14 @@ type c16Snap struct {
 	env     string
 	envSet  bool
 	touches int
+	probes  string // verdicts of the static check on fixed probe programs
 }
+
+// c16Probes are fixed programs whose static verdict depends only on the
+// context a fresh chunk starts in (default pragmas, builtins, the global names
+// that are compared separately): code that did not compile, or was only
+// checked, must not change any of them.
+var c16Probes = []string{"c16-probe-unknown-command a", "{ c16-probe-unknown-command }", "put $c16-probe-undefined", "use str", "c16-probe-unknown-command | nop"}
 
 func c16Snapshot(ev *eval.Evaler, touches int) c16Snap {
 	s := c16Snap{bind: map[string]c16Binding{}, touches: touches}
@@ -313,6 +320,10 @@ func c16Snapshot(ev *eval.Evaler, touches int) c16Snap {
 	})
 	sort.Strings(s.names)
 	s.env, s.envSet = os.LookupEnv("C16_PROBE")
+	for _, p := range c16Probes {
+		perr, _, cerr := ev.Check(parse.Source{Name: "[probe]", Code: p}, nil)
+		s.probes += fmt.Sprintf("%q: parse error %v, compilation error %v\n", p, perr, cerr)
+	}
 	return s
 }
 
@@ -322,6 +333,9 @@ func c16Diff(before, after c16Snap) error {
 	}
 	if before.env != after.env || before.envSet != after.envSet {
 		return fmt.Errorf("environment variable C16_PROBE changed from %q to %q", before.env, after.env)
+	}
+	if before.probes != after.probes {
+		return fmt.Errorf("the static check of fixed probe programs gives a different result:\n  before: %s  after:  %s", before.probes, after.probes)
 	}
 	if strings.Join(before.names, " ") != strings.Join(after.names, " ") {
 		return fmt.Errorf("names in the global namespace changed:\n  before: %v\n  after:  %v", before.names, after.names)
@@ -501,6 +515,24 @@ func c16Gen(t *rapid.T) c16Case {
 	var c c16Case
 	for i := 0; i < n; i++ {
 		c.Steps = append(c.Steps, c16GenProg(t, &id, false))
+	}
+	if rapid.IntRange(0, 3).Draw(t, "toppragma") == 0 {
+		// a strict pragma at the top level of one program, and a bare unknown
+		// command somewhere in the same or a later program: the pragma governs
+		// the rest of its own chunk and nothing else
+		insert := func(step int, st c16Stmt) {
+			ss := c.Steps[step].Stmts
+			k := rapid.IntRange(0, len(ss)).Draw(t, "at")
+			out := append([]c16Stmt(nil), ss[:k]...)
+			out = append(out, st)
+			c.Steps[step].Stmts = append(out, ss[k:]...)
+		}
+		i := rapid.IntRange(0, n-1).Draw(t, "pragmastep")
+		j := rapid.IntRange(i, n-1).Draw(t, "unknownstep")
+		id++
+		insert(i, c16Stmt{K: "pragma", ID: id})
+		id++
+		insert(j, c16Stmt{K: "unknown", ID: id})
 	}
 	return c
 }
